@@ -187,6 +187,23 @@ def judge_collections(ctx, rng, t, pool):
         return ctx.violation('C03|extract|' + t[0], repr(e)[:200], case)
     if got != srt:
         ctx.violation('C03|map-UPDATE-key-order-or-dedup|' + t[0], 'got %r want %r' % (got, srt), case)
+    # the same map given as a Python dict whose insertion order is the reverse of the key order: the Michelson order decides
+    if len(srt) >= 2:
+        try:
+            mt = T.map_(t, T.NAT)
+            mcls = D.mk_type(mt)
+            mobj = mcls.from_micheline_value([{'prim': 'Elt', 'args': [P.render(x, t, 'readable'), {'int': str(j)}]} for j, x in enumerate(srt)])
+            py = mobj.to_python_object()
+            rev = dict(reversed(list(py.items())))
+            ctx.count('maps_from_python_dicts')
+            back = mcls.from_python_object(rev)
+            got = [k for k, _ in X.value_of(back)]
+            if got != srt:
+                ctx.violation('C03|map-from-python-dict-key-order|' + t[0], 'dict %r -> keys in the order %r, want %r' % (list(rev)[:6], got, srt),
+                              {'type': T.to_micheline(mt), 'elements': [P.render(x, t, 'readable') for x in srt], 'via': 'from_python_object'})
+        except Exception as e:
+            ctx.violation('C03|map-from-python-dict-raises|%s|%s' % (t[0], type(e).__name__), repr(e)[:200],
+                          {'type': T.to_micheline(T.map_(t, T.NAT)), 'elements': [P.render(x, t, 'readable') for x in srt], 'via': 'from_python_object'})
     # and through a big_map; the history ends with overwrites of the least key and of a middle key (no fresh key afterwards)
     order2 = order + [srt[0]] + ([srt[len(srt) // 2]] if len(srt) > 2 else [])
     code = [{'prim': 'EMPTY_BIG_MAP', 'args': [T.to_micheline(t), {'prim': 'nat'}]}]
